@@ -373,6 +373,26 @@ pub fn scenarios(tier: &str) -> Vec<Scenario> {
             network: "regtest".into(),
             traces: false,
         },
+        // balances that rest longer than the undo window and then leave and return to the rested value
+        Scenario {
+            name: "ledger-after-rest".into(),
+            opts: opts.clone(),
+            starts: vec![("initialised, 4 ordi deposited to p1".into(), base.clone())],
+            alphabet: vec![
+                m_mine(W + 1),
+                m_mine(W - 1),
+                m_block("B(wd p1 ordi 2)", vec![wd(1, "ordi", "0x2")]),
+                m_block("B(dep p1 ordi 2)", vec![dep(1, "ordi", "0x2")]),
+                m_block("B(wd p1 ordi 2, dep p1 ordi 2)", vec![wd(1, "ordi", "0x2"), dep(1, "ordi", "0x2")]),
+                m_block("B(dep p2 ordi 4, wd p2 ordi 4)", vec![dep(2, "ordi", "0x4"), wd(2, "ordi", "0x4")]),
+                m_commit(1),
+                m_reorg(0, RTarget::Back(1)),
+            ],
+            bounds: Bounds { depth: if thorough { 5 } else { 4 }, dev: vec![1, 1], dev_total: 2 },
+            weight: 1.0,
+            network: "regtest".into(),
+            traces: false,
+        },
         Scenario {
             name: "ledger-refused-calls".into(),
             opts: opts.clone(),
